@@ -45,7 +45,7 @@ func genC08(cfg Config, emit Emit) error {
 		n = 30000
 	}
 	o := genOpts{maxDepth: 4, sessions: true, sessionPct: 25, caveats: true, caveatPct: 30,
-		kinds: []string{"none", "none", "wrongkey", "tamper", "aud", "resource", "ability", "expired", "revoke", "policy", "decoys", "permute", "missing", "nonowner"}}
+		kinds: []string{"none", "none", "wrongkey", "tamper", "aud", "resource", "ability", "expired", "revoke", "policy", "decoys", "permute", "missing", "nonowner", "case", "nearmiss"}}
 	genWorlds(cfg, n, o, func(w *AWorld, class string) {
 		r := cfg.Rng
 		res := []string{"ok", "okfx", "err"}
@@ -66,8 +66,12 @@ func genC08(cfg Config, emit Emit) error {
 			t.Inline = append([]bool(nil), main.Inline...)
 			t.Nonce = fmt.Sprintf("b%d", k)
 			switch r.Intn(7) {
-			case 0: // ability nobody handles
-				t.Caps = []ACap{{Can: "nope/run", With: main.Caps[0].With, Nb: [][2]int{}}}
+			case 0: // ability nobody handles: an unknown one, or the handled one in other letter case
+				if r.Intn(2) == 0 {
+					t.Caps = []ACap{{Can: swapCase(main.Caps[0].Can[:1]) + main.Caps[0].Can[1:], With: main.Caps[0].With, Nb: main.Caps[0].Nb}}
+				} else {
+					t.Caps = []ACap{{Can: "nope/run", With: main.Caps[0].With, Nb: [][2]int{}}}
+				}
 			case 1: // zero capabilities
 				t.Caps = []ACap{}
 			case 2: // two capabilities: another one, or the very same one twice
